@@ -2,13 +2,14 @@
 import json, socket
 from gen import common, tconnect, sysattr, dnsresp
 
-LEAN_MODULE = "XcmModel.Props.C13"
+LEAN_MODULE = ["XcmModel.Props.C13", "XcmModel.Props.Timer"]
 THEOREMS = [
     "XcmModel.Tconnect.connectNext_good", "XcmModel.Tconnect.trackGetFd_good", "XcmModel.C13.reachable_good",
     "XcmModel.C13.C13_sequential_first_accepting", "XcmModel.C13.C13_errno_of_last_failure",
     "XcmModel.C13.C13_timeout_is_etimedout", "XcmModel.C13.C13_single_first_only",
     "XcmModel.C13.C13_waiting_is_watched", "XcmModel.C13.C13_resolve_sync_terminates",
     "XcmModel.C13tc.C13_tc_fails_only_when_all_tracks_failed", "XcmModel.C13tc.C13_happy_one_track_per_family",
+    "XcmModel.TimerProps.timer_inv_run", "XcmModel.TimerProps.C04_expired_timer_wakes", "XcmModel.TimerProps.C13_has_expired_implies_readable", "XcmModel.TimerProps.ids_never_reused", "XcmModel.TimerProps.cancel_exact", "XcmModel.TimerProps.other_calls_keep_timer", "XcmModel.TimerProps.ack_live_no_abort",
 ]
 
 
@@ -235,6 +236,10 @@ def sys_part(ctx, quick):
     finally:
         resp.close()
 
+    # the timer manager behind connect timeouts, the Happy Eyeballs delay and dns.timeout
+    from gen import timer as _timer
+    _timer.run_part(ctx, 40 if ctx.tier == "quick" else 1500, label="c13timer")
+    ctx.rule += " unit_timer: the real timer_mgr.c (scripted clock, recorded timerfd_settime, K-timerfd probed on the real kernel) vs the Lean TimerMgr model on every short two-user history and on random histories with stale ids; monitor: the timerfd is always armed at the earliest live deadline, ids are never reused, a cancel removes exactly the timer named."
 
 def replay(path):
     r = json.load(open(path))
